@@ -45,7 +45,7 @@ CLAIMED = {
          "Exploration: generated bucket configurations (half invalid) and observation sequences over every f64 class through Histogram, HistogramVec children and LocalHistogram, compared with a naive reference after generated collections.",
          "Trusted: the reference fold; single-threaded histories only (concurrency is C02/C03).", "§4 C08"),
  "C09": ("proptest-generated name/label/help strings incl. non-ASCII + independent byte-level recognisers; validity of every gathered sample",
-         "Exploration: generated constructor arguments and registry prefix/common labels; Ok/Err must follow the two regular languages and the duplicate / le / help rules, and every gathered name must be valid and pairwise distinct per sample.",
+         "Exploration: generated constructor arguments and registry prefix/common labels (hand-written adversarial pools plus a computed pool of every non-ASCII character whose Unicode case mapping is pure ASCII); Ok/Err must follow the two regular languages and the duplicate / le / help rules, and every gathered name must be valid and pairwise distinct per sample. In addition one finite sub-space is enumerated completely on every run: every Unicode scalar value as leading and as non-leading character of a metric name and of a label name (4 x 1 112 064 Desc::new calls).",
          "Trusted: the recognisers. One known finding (registry common label equal to a metric label) is reported as KNOWN-FINDING.", "§4 C09"),
  "C12": ("proptest-generated local/shared update, flush, reset, clone, drop, remove histories (stateful) + reference model per shared child object",
          "Exploration: generated histories over up to 4 local handles of one shared counter / histogram / vector; shared values (also of detached children) and every local's pending data are compared with the model after every operation.",
@@ -63,7 +63,7 @@ CLAIMED = {
          "Exploration: 1-8 generated calls per case over 27 fallible entry points with arbitrary Unicode, cardinalities, f64 parameters, arbitrary families and failing writers.",
          "Trusted: the recognisers of C08/C09 for the Ok/Err expectation; documented-panic entry points are not called.", "§4 C17"),
  "C18": ("proptest-generated timer start/stop/discard/drop/move-to-thread histories (stateful) + count model and exact-duration check",
-         "Exploration: generated histories over shared and local timers incl. cross-thread ends; counts after every operation and the sum increment against the returned duration.",
+         "Exploration: generated histories over shared and local timers incl. cross-thread ends; after every operation the count, the cumulative buckets le=-1 (must stay 0) and le=f64::MAX (must equal the count) of the shared histogram, every local's pending count, and the sum increment against the returned duration.",
          "Trusted: the count model; nothing depends on elapsed time.", "§4 C18"),
 }
 NOT_YET = {}
